@@ -101,9 +101,9 @@ func TestC08_LongSync(t *testing.T) {
 			}
 			inflight := p.MaxInFlt
 			p.Open()
-			w.SettleUntilCap(func() bool { return len(firstDone) == 1 && len(secondDone) == 1 }, 10000)
+			w.SettleUntilCap(func() bool { return len(firstDone) == 1 && len(secondDone) == 1 }, 50000)
 			if len(firstDone) != 1 || len(secondDone) != 1 {
-				panic("VERIF-NORETURN: a sync call has not returned 2 s after the gate was opened")
+				panic("VERIF-NORETURN: a sync call has not returned 10 s after the gate was opened")
 			}
 			synctest.Wait()
 			if err := <-firstDone; err != nil {
